@@ -53,6 +53,23 @@ from doctrans.pure_utils import (
 from doctrans.source_transformer import to_code
 
 
+def _return_default2ast(default):
+    """
+    The default of the return entry as an expression
+
+    :param default: source code (optionally back-tick quoted) when a `str`, otherwise the value itself (`0`, `False`)
+    :type default: ```Any```
+
+    :returns: AST expression to return
+    :rtype: ```ast.expr```
+    """
+    return (
+        ast.parse(default.strip("`")).body[0].value
+        if isinstance(default, str)
+        else set_value(default)
+    )
+
+
 def argparse_function(
     intermediate_repr,
     emit_default_doc=False,
@@ -252,13 +269,11 @@ def argparse_function(
                                         ctx=Load(),
                                         elts=[
                                             Name("argument_parser", Load()),
-                                            ast.parse(
+                                            _return_default2ast(
                                                 intermediate_repr["returns"][
                                                     "return_type"
-                                                ]["default"].strip("`")
-                                            )
-                                            .body[0]
-                                            .value,
+                                                ]["default"]
+                                            ),
                                         ],
                                         expr=None,
                                     ),
@@ -671,16 +686,15 @@ def function(
     )
     return_val = (
         Return(
-            value=ast.parse(
-                intermediate_repr["returns"]["return_type"]["default"].strip("`")
-            )
-            .body[0]
-            .value,
+            value=_return_default2ast(
+                intermediate_repr["returns"]["return_type"]["default"]
+            ),
             expr=None,
         )
         if (intermediate_repr.get("returns") or {"return_type": {}})["return_type"].get(
             "default"
         )
+        not in (None, "")
         else None
     )
 
